@@ -4,8 +4,8 @@
 # 2. copy patch.diff / demo.py / meta.json to seeded/<id>/;
 # 3. apply the patch to /repo, run the property's check (or all checks with "all"), undo.
 set -u
-P="$1"; MODE="${2:-one}"
-W=/tmp/seed_$P
+P="$1"; MODE="${2:-one}"; PREFIX="${3:-seed}"; SUF="${4:-}"
+W=/tmp/${PREFIX}_$P
 V="$(cd "$(dirname "$0")/.." && pwd)"
 [ -f "$W/seed/patch.diff" ] || { echo "no seed for $P"; exit 2; }
 cd "$W" || exit 2
@@ -16,11 +16,11 @@ echo "== demo with the change (expect exit 1)"; PYTHONPATH=$W/src timeout 120 /v
 git -C "$W" diff -- src > /tmp/seed_$P.patch; git -C "$W" checkout -- src
 echo "== demo without the change (expect exit 0)"; PYTHONPATH=$W/src timeout 120 /venv/bin/python seed/demo.py > /tmp/seed_$P.demo_without.txt 2>&1; echo "exit $?"; tail -2 /tmp/seed_$P.demo_without.txt
 git -C "$W" apply /tmp/seed_$P.patch
-mkdir -p "$V/seeded/$P"; cp /tmp/seed_$P.patch "$V/seeded/$P/patch.diff"; cp seed/demo.py "$V/seeded/$P/demo.py"; cp seed/meta.json "$V/seeded/$P/meta.json"
+mkdir -p "$V/seeded/$P$SUF"; cp /tmp/seed_$P.patch "$V/seeded/$P$SUF/patch.diff"; cp seed/demo.py "$V/seeded/$P$SUF/demo.py"; cp seed/meta.json "$V/seeded/$P$SUF/meta.json"
 [ "$MODE" = confirm ] && exit 0
 echo "== checks on /repo with the patch applied"
 git -C /repo status --short | grep -q . && { echo "/repo not clean"; exit 2; }
-git -C /repo apply "$V/seeded/$P/patch.diff" || { echo "patch does not apply to /repo"; exit 2; }
+git -C /repo apply "$V/seeded/$P$SUF/patch.diff" || { echo "patch does not apply to /repo"; exit 2; }
 cd "$V"
 if [ "$MODE" = all ]; then LIST=$(python3 -c "import json;print(' '.join(c['property_id'] for c in json.load(open('MANIFEST.json'))['checks']))"); else LIST="$P"; fi
 for c in $LIST; do ./check "$c" 2>&1 | grep -E "^VIOLATION|-> exit" | tr '\n' ' '; echo; done
